@@ -145,6 +145,10 @@ func (fs *ReaderFS) readErr(r io.Reader) error {
 		if err != nil {
 			return fserrors.WithMessage(err, "next tar file")
 		}
+		if header.Typeflag == tar.TypeXGlobalHeader {
+			// a PAX global header ("pax_global_header", as written by 'git archive') describes the entries that follow, it is not one of them
+			continue
+		}
 		err = fs.readProcessFile(header, archive, &wg, errs, cachedMkdirAll, smallPool, bigPool)
 		if err != nil {
 			return err
